@@ -90,6 +90,8 @@ def random_case(rng, tier):
         opts['cleanup_raises'] = True
     if rng.random() < 0.2:
         opts['late_output'] = True
+    if rng.random() < 0.2:
+        opts['cleanup_registers'] = True
     return {'program': program, 'schedule': schedule, 'opts': opts}
 
 
